@@ -689,11 +689,14 @@ type FileParams struct {
 	TopOut   bool
 	Mode     string // rolling | post | strict
 	Size     int
+	// Phys: the pipestance lives below a symlinked directory and the
+	// producer reports its files by physical path.
+	Phys bool
 }
 
 func (d FileParams) String() string {
-	return fmt.Sprintf("files{out=%s proj=%q prod=%s prodwrap=%v conswrap=%v consmap=%v prodmap=%v late=%v vol=%q retain=%q topout=%v mode=%s size=%d}",
-		d.Out, d.Proj, d.Prod, d.ProdWrap, d.ConsWrap, d.ConsMap, d.ProdMap, d.Late, d.Vol, d.Retain, d.TopOut, d.Mode, d.Size)
+	return fmt.Sprintf("files{out=%s proj=%q prod=%s prodwrap=%v conswrap=%v consmap=%v prodmap=%v late=%v vol=%q retain=%q topout=%v mode=%s size=%d phys=%v}",
+		d.Out, d.Proj, d.Prod, d.ProdWrap, d.ConsWrap, d.ConsMap, d.ProdMap, d.Late, d.Vol, d.Retain, d.TopOut, d.Mode, d.Size, d.Phys)
 }
 
 func filewOuts() []Param {
@@ -899,17 +902,19 @@ func FileFamily(maxDev int) []FileParams {
 										for e, pm := range bools {
 											for f, late := range bools {
 												for g, topo := range bools {
-													dev := 0
-													for _, x := range []int{oi, pi, di, ri, a, b, c, e, f, g} {
-														if x != 0 {
-															dev++
+													for h, phys := range bools {
+														dev := 0
+														for _, x := range []int{oi, pi, di, ri, a, b, c, e, f, g, h} {
+															if x != 0 {
+																dev++
+															}
 														}
+														if dev > maxDev {
+															continue
+														}
+														out = append(out, FileParams{Out: o, Proj: pr, Prod: prod, ProdWrap: pw, ConsWrap: cw,
+															ConsMap: cm, ProdMap: pm, Late: late, Vol: vol, Retain: ret, TopOut: topo, Mode: mode, Size: 2, Phys: phys})
 													}
-													if dev > maxDev {
-														continue
-													}
-													out = append(out, FileParams{Out: o, Proj: pr, Prod: prod, ProdWrap: pw, ConsWrap: cw,
-														ConsMap: cm, ProdMap: pm, Late: late, Vol: vol, Retain: ret, TopOut: topo, Mode: mode, Size: 2})
 												}
 											}
 										}
